@@ -149,6 +149,18 @@ CLAIMED = {
    note="Liveness in the code is a 600 s watchdog; in the model a TLC liveness check. Loadability after a failure is only "
         "claimed for file storage (memory storages persist at the end of a run by design).",
    technique="TLC-enumerated failure schedules replayed via controllable executor; TLC trace validation; TLC liveness check"),
+ "C17": dict(
+   category="model_checking", design_ref="6 C17",
+   text="Sweep.tla: Combos(items, dims, constants, derivers, exclude) as a sequence, LenOp, Product, Concat, Filtered, Count "
+        "with the laws (each combination of the Cartesian product of the zipped groups exactly once, row-major order where "
+        "the property fixes it, LenOp = Len(Combos), product = Cartesian product of the lists, + = concatenation, filtered = "
+        "distinct projections, count per root-argument tuple) checked by TLC over TLA+-defined universes (single sweeps, "
+        "pairs, triples, filters, counts; sharded) and exported; every case is run through the real Sweep / MultiSweep / "
+        "generate_sweep / filtered_sweep / count_sweep and compared (order where fixed, multiset otherwise).",
+   note="Don't-cares: order with non-item-order dims, Sweep({}) as a product operand, constants never override item keys, "
+        "mismatched zips only checked to raise. Known findings F21 (product loses a later operand's zip), F71 (filtered_sweep "
+        "keeps duplicates for repeated values).",
+   technique="TLA+ sweep algebra checked by TLC; exhaustive universe export compared against the sweep API"),
 }
 NOT_YET = "check not built yet in this round (specification module planned in DESIGN.md section 6)"
 
